@@ -190,6 +190,88 @@ theorem files2_dropLastEmpty_snoc_ne (ls : List Bytes) (x : Bytes) (hx : x ≠ [
     | nil => cases x <;> simp_all [dropLastEmpty]
     | cons l2 ls => simp only [List.cons_append, dropLastEmpty] at ih ⊢; rw [ih]
 
+/-! ### the condition is also necessary -/
+
+theorem files2_split_ne_nil (sep s : Str) : split sep s ≠ [] := splitAux_ne_nil _ _ _ _ _
+
+/-- if the first piece of `line + EOL + rest` is the line, the line satisfies `lineOk` -/
+theorem files2_lineOk_of_split_head (e : Bytes) (he : e ≠ []) (l rest : Bytes) (ps : List Bytes)
+    (h : split e (l ++ e ++ rest) = l :: ps) : lineOk e l = true := by
+  induction l generalizing ps with
+  | nil => rfl
+  | cons c l ih =>
+    have hpre := files2_startsWith_append (c :: l ++ e) rest e (by simp; omega)
+    simp only [List.cons_append, List.append_assoc] at hpre h
+    cases hsw : startsWith (c :: (l ++ (e ++ rest))) e with
+    | true =>
+      rw [files2_split_match e he c _ hsw] at h
+      cases h
+    | false =>
+      rw [files2_split_nomatch e c _ hsw] at h
+      cases hsp : split e (l ++ (e ++ rest)) with
+      | nil => exact absurd hsp (files2_split_ne_nil _ _)
+      | cons x xs =>
+        rw [hsp] at h
+        simp only [files2_consHead, List.cons_append, List.nil_append, List.cons.injEq] at h
+        obtain ⟨⟨_, hx⟩, _⟩ := h
+        subst hx
+        have := ih xs (by simpa using hsp)
+        rw [hsw] at hpre
+        simp only [lineOk, List.cons_append, ← hpre, Bool.not_false, Bool.true_and]
+        exact this
+
+/-- **`split` returns the lines (and whatever tail) only if every line satisfies `lineOk`** — and
+then the tail is the single empty piece -/
+theorem files2_split_unlines_conv (e : Bytes) (he : e ≠ []) (ls : List Bytes) (t : List Bytes)
+    (h : split e (unlinesB e ls) = ls ++ t) : (∀ l ∈ ls, lineOk e l = true) ∧ t = [[]] := by
+  induction ls with
+  | nil =>
+    simp only [unlinesB, List.flatMap_nil, files2_split_nil, List.nil_append] at h
+    exact ⟨by simp, h.symm⟩
+  | cons l ls ih =>
+    have hcat : unlinesB e (l :: ls) = l ++ e ++ unlinesB e ls := by simp [unlinesB]
+    rw [hcat, List.cons_append] at h
+    have hok := files2_lineOk_of_split_head e he l _ _ h
+    rw [files2_split_line e he l _ hok] at h
+    obtain ⟨h1, h2⟩ := ih (List.cons.inj h).2
+    refine ⟨?_, h2⟩
+    intro x hx
+    rcases List.mem_cons.mp hx with rfl | hx
+    · exact hok
+    · exact h1 x hx
+
+theorem files2_dropLastEmpty_eq (xs ls : List Bytes) (hx : xs ≠ []) (h : dropLastEmpty xs = ls) :
+    xs = ls ++ [[]] ∨ xs = ls := by
+  induction xs generalizing ls with
+  | nil => exact absurd rfl hx
+  | cons x xs ih =>
+    cases xs with
+    | nil =>
+      cases x with
+      | nil => left; simp [dropLastEmpty] at h; simp [← h]
+      | cons a x => right; simp [dropLastEmpty] at h; exact h
+    | cons y xs =>
+      simp only [dropLastEmpty] at h
+      cases ls with
+      | nil => cases h
+      | cons l ls =>
+        obtain ⟨rfl, h'⟩ := List.cons.inj h
+        rcases ih ls (by simp) h' with h2 | h2
+        · left; rw [h2]; rfl
+        · right; rw [h2]
+
+/-- **exactness**: binary `load_lines` of a file written one line per EOL returns the lines iff
+every line satisfies `lineOk` -/
+theorem files2_dropLastEmpty_split_iff (e : Bytes) (he : e ≠ []) (ls : List Bytes) :
+    dropLastEmpty (split e (unlinesB e ls)) = ls ↔ ∀ l ∈ ls, lineOk e l = true := by
+  constructor
+  · intro h
+    rcases files2_dropLastEmpty_eq _ _ (files2_split_ne_nil _ _) h with h2 | h2
+    · exact (files2_split_unlines_conv e he ls [[]] h2).1
+    · exact (files2_split_unlines_conv e he ls [] (by simpa using h2)).1
+  · intro h
+    rw [files2_split_unlines e he ls h, files2_dropLastEmpty_snoc]
+
 /-! ### `save_file` of a list of lines on the manual path, any kind of line -/
 
 theorem files2_unlinesB_markFirst (bom e : Bytes) (ls : List Bytes) :
